@@ -500,6 +500,13 @@ class ProvRDFSerializer(Serializer):
                     )
                 else:
                     bundle_id = str(graph.identifier)
+                    if document.valid_qualified_name(bundle_id) is None:
+                        # no declared namespace covers the name of the bundle
+                        # (the RDF writer only keeps prefixes in use)
+                        prefix, iri, _ = content.namespace_manager.compute_qname(
+                            bundle_id
+                        )
+                        document.add_namespace(prefix, str(iri))
                     bundle = document.bundle(bundle_id)
                     self.decode_container(
                         graph,
